@@ -56,7 +56,7 @@ ELEMENTS = [
     # recorded example of the open finding C15-lone-block-separator-number-is-silent
     "<math><mn>.</mn><msub><mi>a</mi><mn>1</mn></msub><msub><mi>a</mi><mn>2</mn></msub><msub><mi>a</mi><mn>3</mn></msub></math>",
 ]
-WALK = ["ZoomIn", "MoveNext", "ReadCurrent", "ZoomOut"]
+WALK = ["ZoomIn", "DescribeCurrent", "MoveNext", "ReadCurrent", "DescribeCurrent", "ZoomOut"]
 
 
 def listing():
